@@ -13,77 +13,36 @@ open SL.ISort (StrictTotal)
 section
 variable {φ κ : Type}
 
-/-! ### which requests never lose information before the merge -/
+/-! ### the one request class on which mechanism and reference still differ -/
 
 def DInterval.isFixed : DInterval → Bool
   | .fixed _ => true
   | .calendar _ => false
 
-def DInterval.isQuarter : DInterval → Bool
-  | .calendar .quarter => true
-  | _ => false
-
-theorem dateBucket_strict_irrelevant {iv : DInterval} (h : iv.isQuarter = false) (s1 s2 : Bool)
-    (off v : Int) : dateBucket s1 iv off v = dateBucket s2 iv off v := by
-  cases iv with
-  | fixed step => rfl
-  | calendar u => cases u <;> first | rfl | simp [DInterval.isQuarter] at h
-
-def CSrc.isF64 : CSrc φ → Bool
-  | .terms _ => true
-  | .hist _ _ c => c
-
-/-- the per-segment thresholds of the node cannot drop anything that the thresholds applied to
-the merged counts would keep: no terms `size`, `min_doc_count ≤ 1`, no rare_terms, composite
-histogram sources over f64 columns only -/
+/-- every node except a date_histogram that combines a calendar interval, a non-zero offset and
+(extended or hard) bounds: there the bounds fill of the code drops the offset after its first
+step (open finding `date_histogram.calendar-offset-fill`) -/
 def BSpec.safe : BSpec φ κ → Bool
-  | .terms _ size minDoc _ => size.isNone && decide (minDoc ≤ 1)
-  | .rare _ _ _ => false
-  | .hist _ _ _ minDoc _ _ _ => decide (minDoc ≤ 1)
-  | .dhist _ iv offset minDoc ext hard _ ideal =>
-    decide (minDoc ≤ 1) &&
-      (ideal || ((decide (offset = 0) || iv.isFixed || (ext.or hard).isNone) && !iv.isQuarter))
-  | .composite srcs _ _ => srcs.all CSrc.isF64
+  | .dhist _ iv offset _ ext hard _ ideal =>
+    ideal || decide (offset = 0) || iv.isFixed || (ext.or hard).isNone
   | _ => true
 
 mutual
 def Agg.safe : Agg φ κ → Bool
   | .bucket b subs => b.safe && subs.safe
-  | .topHits _ fromN _ => decide (fromN = 0)
   | _ => true
 def Aggs.safe : Aggs φ κ → Bool
   | .nil => true
   | .cons a r => a.safe && r.safe
 end
 
-/-- the `min_doc_count` in force at a node (0 where the kind has none) -/
+/-- the doc-count floor of `finish()` (rare_terms keeps `doc_count > 0`; nothing else filters) -/
 def BSpec.minOf : BSpec φ κ → Nat
-  | .terms _ _ minDoc _ => minDoc
-  | .hist _ _ _ minDoc _ _ _ => minDoc
-  | .dhist _ _ _ minDoc _ _ _ _ => minDoc
+  | .rare _ _ _ => 1
   | _ => 0
 
-theorem BSpec.minOf_le {b : BSpec φ κ} (hs : b.safe = true) : b.minOf ≤ 1 := by
-  cases b <;> simp_all [BSpec.safe, BSpec.minOf]
-
-theorem CSrc.ideal_of_isF64 {s : CSrc φ} (h : s.isF64 = true) : s.ideal = s := by
-  cases s with
-  | terms f => rfl
-  | hist f i c => simp [CSrc.isF64] at h; subst h; rfl
-
-theorem BSpec.ideal_of_safe {b : BSpec φ κ} (hs : b.safe = true)
-    (hd : ∀ f iv o m e h mi a, b ≠ .dhist f iv o m e h mi a) : b.ideal = b := by
-  cases b with
-  | composite srcs size after =>
-    simp only [BSpec.safe, List.all_eq_true] at hs
-    simp only [BSpec.ideal]
-    congr 1
-    conv => rhs; rw [← List.map_id srcs]
-    apply List.map_congr_left
-    intro s hsrc
-    exact CSrc.ideal_of_isF64 (hs s hsrc)
-  | dhist f iv o m e h mi a => exact absurd rfl (hd f iv o m e h mi a)
-  | _ => rfl
+theorem BSpec.minOf_le (b : BSpec φ κ) : b.minOf ≤ 1 := by
+  cases b <;> simp [BSpec.minOf]
 
 theorem fillFrom_congr (n1 n2 : Int → Int) (hn : ∀ x, n1 x = n2 x) (cur hi : Int) (fuel : Nat) :
     fillFrom n1 cur hi fuel = fillFrom n2 cur hi fuel := by
@@ -93,23 +52,16 @@ theorem fillFrom_congr (n1 n2 : Int → Int) (hn : ∀ x, n1 x = n2 x) (cur hi :
 variable [KOrd κ] [DecidableEq κ]
 set_option linter.unusedSectionVars false
 
-theorem finishSeg_safe {b : BSpec φ κ} (hs : b.safe = true) (bs : Buckets κ) :
+theorem finishSeg_eq (b : BSpec φ κ) (bs : Buckets κ) :
     finishSeg b bs = bs.filter (keepMin b.minOf) := by
   cases b with
-  | terms f size minDoc missing =>
-    simp only [BSpec.safe, Bool.and_eq_true, Option.isNone_iff_eq_none] at hs
-    obtain ⟨rfl, _⟩ := hs
-    simp only [finishSeg, keepTop, BSpec.minOf]; rfl
-  | rare _ _ _ => simp [BSpec.safe] at hs
-  | hist _ _ _ _ _ _ _ => simp only [finishSeg, BSpec.minOf]; rfl
-  | dhist _ _ _ _ _ _ _ _ => simp only [finishSeg, BSpec.minOf]; rfl
+  | rare _ _ _ => rfl
+  | terms _ _ _ _ => simp only [finishSeg, BSpec.minOf]; exact (filter_keepMin_zero bs).symm
   | range _ _ _ => simp only [finishSeg, BSpec.minOf]; exact (filter_keepMin_zero bs).symm
+  | hist _ _ _ _ _ _ _ => simp only [finishSeg, BSpec.minOf]; exact (filter_keepMin_zero bs).symm
+  | dhist _ _ _ _ _ _ _ _ => simp only [finishSeg, BSpec.minOf]; exact (filter_keepMin_zero bs).symm
   | filter _ => simp only [finishSeg, BSpec.minOf]; exact (filter_keepMin_zero bs).symm
   | composite _ _ _ => simp only [finishSeg, BSpec.minOf]; exact (filter_keepMin_zero bs).symm
-
-theorem mergePost_safe {b : BSpec φ κ} (hs : b.safe = true) (bs : Buckets κ) :
-    mergePost b bs = bs := by
-  cases b <;> simp_all [mergePost, BSpec.safe]
 
 /-! ### insertion sort facts -/
 
@@ -206,45 +158,34 @@ theorem rawBuckets_ideal {b : BSpec φ κ} (hs : b.safe = true)
     rawBuckets b.ideal C docs = rawBuckets b C docs := by
   cases b with
   | dhist f iv o m e h mi a =>
-    simp only [BSpec.safe, Bool.and_eq_true, Bool.or_eq_true, decide_eq_true_eq,
-      Bool.not_eq_true'] at hs
-    obtain ⟨_, hs⟩ := hs
-    rcases hs with ha | ⟨hs, hq⟩
-    · subst ha; rfl
-    · apply rawBuckets_congr_spec
-      · funext d
-        have e1 : (fun v => (dateBucket (!true) iv o v).map (Key.num (κ := κ))) =
-            (fun v => (dateBucket (!a) iv o v).map (Key.num (κ := κ))) := by
-          funext v; rw [dateBucket_strict_irrelevant hq (!true) (!a)]
-        simp only [BSpec.ideal, keysOf]
-        rw [e1]
-      · simp only [extraKeys, BSpec.ideal]
-        cases hb : e.or h with
-        | none => rfl
-        | some lh =>
-          obtain ⟨lo, hi⟩ := lh
-          simp only
-          rw [dateBucket_strict_irrelevant hq (!true) (!a) o lo,
-            dateBucket_strict_irrelevant hq (!true) (!a) o hi]
-          split
-          · congr 1
-            apply fillFrom_congr
-            intro x
-            rcases hs with (ho | hf) | hn
-            · subst ho; cases a <;> simp [fillStep]
-            · cases iv with
-              | fixed step => cases a <;> simp [fillStep, addInterval] <;> omega
-              | calendar u => simp [DInterval.isFixed] at hf
-            · rw [hb] at hn; simp at hn
-          · rfl
-      · rfl
+    simp only [BSpec.safe, Bool.or_eq_true, decide_eq_true_eq] at hs
+    apply rawBuckets_congr_spec
+    · rfl
+    · simp only [extraKeys, BSpec.ideal]
+      cases hb : e.or h with
+      | none => rfl
+      | some lh =>
+        obtain ⟨lo, hi⟩ := lh
+        simp only
+        split
+        · congr 1
+          apply fillFrom_congr
+          intro x
+          rcases hs with ((ha | ho) | hf) | hn
+          · subst ha; rfl
+          · subst ho; cases a <;> simp [fillStep]
+          · cases iv with
+            | fixed step => cases a <;> simp [fillStep, addInterval] <;> omega
+            | calendar u => simp [DInterval.isFixed] at hf
+          · rw [hb] at hn; simp at hn
+        · rfl
+    · rfl
   | terms _ _ _ _ => rfl
   | rare _ _ _ => rfl
   | range _ _ _ => rfl
   | hist _ _ _ _ _ _ _ => rfl
   | filter _ => rfl
-  | composite srcs size after =>
-    rw [BSpec.ideal_of_safe hs (by intros; simp)]
+  | composite _ _ _ => rfl
 
 /-! ### presentation commutes with a map on the children -/
 
@@ -274,28 +215,28 @@ theorem afterFilter_map (g : List (Node κ) → List (Node κ)) (after : Option 
   | none => rfl
   | some a => exact filter_onChildren g _ (fun _ => rfl) bs
 
-theorem specPost_map (b : BSpec φ κ) (g : List (Node κ) → List (Node κ)) (bs : Buckets κ) :
-    specPost b (bs.map (onChildren g)) =
-      ((specPost b bs).1.map (onChildren g), (specPost b bs).2) := by
+theorem finalPost_map (b : BSpec φ κ) (g : List (Node κ) → List (Node κ)) (bs : Buckets κ) :
+    finalPost b (bs.map (onChildren g)) =
+      ((finalPost b bs).1.map (onChildren g), (finalPost b bs).2) := by
   cases b with
   | terms f size minDoc missing =>
-    simp only [specPost]
+    simp only [finalPost]
     rw [filter_onChildren g _ (fun _ => rfl), sortBy_map termsLt termsLt (onChildren g)
       (termsLt_onChildren g), truncate_map]
   | rare f maxDoc size =>
-    simp only [specPost]
+    simp only [finalPost]
     rw [filter_onChildren g _ (fun _ => rfl), sortBy_map rareLt rareLt (onChildren g)
       (rareLt_onChildren g), truncate_map]
   | hist _ _ _ _ _ _ _ =>
-    simp only [specPost]
+    simp only [finalPost]
     rw [filter_onChildren g _ (fun _ => rfl)]
   | dhist _ _ _ _ _ _ _ _ =>
-    simp only [specPost]
+    simp only [finalPost]
     rw [filter_onChildren g _ (fun _ => rfl)]
-  | range _ _ _ => simp [specPost, finalPost]
-  | filter _ => simp [specPost, finalPost]
+  | range _ _ _ => simp [finalPost]
+  | filter _ => simp [finalPost]
   | composite srcs size after =>
-    simp only [specPost, finalPost, afterFilter_map, List.length_map]
+    simp only [finalPost, afterFilter_map, List.length_map]
     split
     · have e : List.take size (List.map (onChildren g) (afterFilter after bs)) =
           List.map (onChildren g) (List.take size (afterFilter after bs)) := by
@@ -303,6 +244,18 @@ theorem specPost_map (b : BSpec φ κ) (g : List (Node κ) → List (Node κ)) (
       rw [e, List.getLast?_map, Option.map_map]
       rfl
     · rfl
+
+/-- `finalize_response` sees through the `doc_count > 0` filter of `RareTermsCollector::finish` -/
+theorem finalPost_finishSeg (b : BSpec φ κ) (bs : Buckets κ) :
+    finalPost b (finishSeg b bs) = finalPost b bs := by
+  cases b with
+  | rare f maxDoc size =>
+    simp only [finalPost, finishSeg, List.filter_filter]
+    congr 3
+    apply List.filter_congr
+    intro x _
+    by_cases h : 0 < x.2.1 <;> simp [h] <;> omega
+  | _ => rfl
 
 end
 end SL.Aggs
